@@ -29,6 +29,7 @@ type FuncContract struct {
 	LoopInv     map[int][]*Clause
 	LoopMod     map[int][]*CExpr
 	CallSites   map[string][]*Clause // assertions in the caller's frame before calls of a callee
+	Sections    map[string][]*Clause // two-state assertions over each critical section of a mutex (old = state at Lock)
 	Flags       map[string]string
 	Line        int
 	used        bool
@@ -83,7 +84,7 @@ var (
 
 var clauseKeywords = map[string]bool{
 	"requires": true, "ensures": true, "modifies": true, "loop": true, "inline": true, "pure": true,
-	"trusted": true, "panics": true, "iterator": true, "itercount": true, "iterelem": true, "allocates": true, "counted": true, "callsite": true, "nomodcheck": true, "unroll": true, "ghostret": true, "opaque": true,
+	"trusted": true, "panics": true, "iterator": true, "itercount": true, "iterelem": true, "allocates": true, "counted": true, "callsite": true, "section": true, "nomodcheck": true, "unroll": true, "ghostret": true, "opaque": true,
 }
 var topKeywords = map[string]bool{
 	"func": true, "pred": true, "spec": true, "lemma": true, "callback": true, "ghost": true,
@@ -163,7 +164,7 @@ func loadContractsInto(c *Contracts, path string) (*Contracts, error) {
 			if m == nil {
 				return nil, fail("bad func header")
 			}
-			cur = &FuncContract{Key: m[1], LoopInv: map[int][]*Clause{}, LoopMod: map[int][]*CExpr{}, CallSites: map[string][]*Clause{}, Flags: map[string]string{}, Line: l.line}
+			cur = &FuncContract{Key: m[1], LoopInv: map[int][]*Clause{}, LoopMod: map[int][]*CExpr{}, CallSites: map[string][]*Clause{}, Sections: map[string][]*Clause{}, Flags: map[string]string{}, Line: l.line}
 			if first == "func" {
 				if c.Funcs[cur.Key] != nil {
 					return nil, fail("duplicate contract for %s", cur.Key)
@@ -339,6 +340,33 @@ func loadContractsInto(c *Contracts, path string) (*Contracts, error) {
 				}
 				cl.Expr, cl.Src = e, rest
 				cur.CallSites[callee] = append(cur.CallSites[callee], cl)
+			case "section":
+				f := strings.Fields(rest)
+				if len(f) < 3 || f[1] != "ensures" {
+					return nil, fail("section <Struct.mutex> ensures <expr>")
+				}
+				mu := f[0]
+				rest = strings.TrimSpace(strings.TrimPrefix(strings.TrimSpace(strings.TrimPrefix(rest, mu)), "ensures"))
+				cl := &Clause{Kind: "section", Line: l.line}
+				for {
+					if m := reTag.FindStringSubmatch(rest); m != nil {
+						cl.Tags = append(cl.Tags, m[1])
+						rest = rest[len(m[0]):]
+						continue
+					}
+					if m := reLabel.FindStringSubmatch(rest); m != nil {
+						cl.Name = m[1]
+						rest = rest[len(m[0]):]
+						continue
+					}
+					break
+				}
+				e, err := parse(rest)
+				if err != nil {
+					return nil, err
+				}
+				cl.Expr, cl.Src = e, rest
+				cur.Sections[mu] = append(cur.Sections[mu], cl)
 			case "modifies":
 				cur.HasModifies = true
 				ms, err := parseModList(rest, parse)
